@@ -459,6 +459,19 @@ func New(members ...Member) (Baggage, error) {
 		return Baggage{}, fmt.Errorf("%w: %d", errBaggageBytes, n)
 	}
 
+	// Check the size of each list-member, as Parse does, so that the
+	// serialized Baggage can be parsed again.
+	for k, v := range b {
+		m := Member{
+			key:        k,
+			value:      v.Value,
+			properties: fromInternalProperties(v.Properties),
+		}
+		if n := len(m.String()); n > maxBytesPerMembers {
+			return Baggage{}, fmt.Errorf("%w: %d", errMemberBytes, n)
+		}
+	}
+
 	return bag, nil
 }
 
